@@ -87,6 +87,10 @@ type BinderActor struct {
 	OnCrash func(id string, k int)
 	// Gate: when set and enabled, every call of a reconcile goroutine parks until released (C17)
 	Gate *gate
+	// MidAt/MidHook (one shot): just before the MidAt-th API call of a reconcile the hook runs in the reconcile's
+	// goroutine, i.e. while the reconcile is in flight (C12: a scheduler cycle in the middle of a bind)
+	MidAt   int
+	MidHook func()
 }
 
 func kindOf(obj any) string {
@@ -143,6 +147,17 @@ func NewBinderActor(api *SimAPI, allocTimeout time.Duration) *BinderActor {
 			}
 		}
 		k, f := b.enter(verb, obj, name)
+		b.mu.Lock()
+		hook := b.MidHook
+		if b.MidAt == 0 || k != b.MidAt {
+			hook = nil
+		} else {
+			b.MidAt = 0
+		}
+		b.mu.Unlock()
+		if hook != nil {
+			hook()
+		}
 		switch f {
 		case "crash":
 			b.crashHere(k)
